@@ -23,6 +23,11 @@ static int _convert_value(void *ptr, MPT_INTERFACE(convertable) *val, const MPT_
 	if (!val) {
 		return MPT_ERROR(MissingData);
 	}
+	/* the element value itself */
+	if (ctx->type == MPT_ENUM(TypeConvertablePtr)) {
+		if (ctx->ptr) *((MPT_INTERFACE(convertable) **) ctx->ptr) = val;
+		return 0;
+	}
 	return val->_vptr->convert(val, ctx->type, ctx->ptr);
 }
 
